@@ -111,7 +111,8 @@ def generate(rng, tier):
         nm = body[0] if (len(body) == 1 or body[1] == ",") else body[:2]
         k = rng.random()
         # payloads: numbers, and texts that begin with the separator or with the letters of the request name (kept verbatim by a correct client)
-        pay = rng.choice([str(rng.randint(0, 99))] * 4 + [",odd", ",,7", nm, nm + "," + nm, ",", "a,b", ",,,x", nm[0] * 3, "x" + nm])
+        pay = rng.choice([str(rng.randint(0, 99))] * 4 + [",odd", ",,7", nm, nm + "," + nm, ",", "a,b", ",,,x", nm[0] * 3, "x" + nm,
+                          "Overr:ide", "ERR:x", "err: 1", "Error", "terr:a", "!8"])          # payloads that resemble the error marker 'Err:' without containing it
         reply = nm + ("," + pay if isq and rng.random() < 0.85 else (pay if isq and rng.random() < 0.3 and not pay[0].isdigit() and pay[0] != "," else ""))
         exp = "SKIP"
         if k < 0.35:
@@ -141,6 +142,11 @@ def generate(rng, tier):
         for fam, ev, exp in [("errline", ["E", ("L", "!8 Err: unknown")], "FAIL"), ("nameerr", ["E", ("L", nm + ",Err: 3")], "FAIL"), ("wrongname", ["E", ("L", "ZZ,1")], "FAIL"),
                              ("silence", ["E"] + ["E"] * 27, "FAIL"), ("readfault", ["E", "F"], "FAIL"), ("writefault", ["F"], "FAIL"), ("clean", ["E", ("L", nm + (",7" if isq else ""))], "SKIP")]:
             add([call, ("status",)], [ev, S.nominal(("status",), rng)], "template-like-text/%s/%s" % ("query" if isq else "command", fam), [exp, "SKIP"])
+    for paytxt in ["Overr:ide", "ERR:x", "err: 1", "ERR: 9", "eRr:", "Error", "OK"]:
+        for text in ("QT", "QL,3", "V"):
+            nm = text[0] if (len(text) == 1 or text[1] == ",") else text[:2]
+            call = ("query", text); ev = ["E", ("L", nm + "," + paytxt)]
+            add([call, ("status",)], [ev, S.nominal(("status",), rng)], "payload-resembling-the-error-marker/%s" % paytxt, [_expected(call, ev), "SKIP"])
     for nick in ["Plotter 50% speed", "{0}", "100%", "%s", "a{b}c"]:
         nomn = S.nominal(("write_nick", nick), rng)
         for i in range(len(nomn)):
